@@ -190,13 +190,19 @@ def h_keyed(P, S):
     if P.get("twin"):
         return False
     # every ciphertext the ideal cipher produced sits in the index right after its IV
-    blob1 = b"".join(x for x in _leaves(list(_members(e1).values()), []) if isinstance(x, bytes))
+    blob1 = b"|".join(x for x in _leaves(list(_members(e1).values()), []) if isinstance(x, bytes))
+    stored = 0
     for (k, iv, ct, p) in ideal.W.enc[:n_iv1]:
-        if (iv + ct) not in blob1 and scheme not in ("CGKO06.SSE2",):
-            # (configuration probes such as len(Encrypt(zero_key, zero_message)) are not stored - skip those)
-            if k.strip(b"\x00") == b"":
-                continue
+        if k.strip(b"\x00") == b"":
+            continue            # configuration probes such as len(Encrypt(zero_key, zero_message)) are not stored
+        n_occ = blob1.count(iv + ct)
+        if n_occ == 0 and scheme != "CGKO06.SSE2":
             return S.fail("stored-ciphertext-does-not-start-with-its-iv")
+        if n_occ > 1:
+            return S.fail("one-ciphertext-stored-twice")
+        stored += n_occ
+    # every ciphertext-bearing leaf is covered by distinct encryptions: entries that are not the output of an
+    # encryption of their own (copies) show up as leaves longer than the encryptions found in them
     return True
 
 
@@ -242,8 +248,22 @@ def _literal(P, S):
                     if i in b1 or any(i in t for t in toks):
                         return S.fail("identifier-in-clear")
         if scheme != "CGKO06.SSE2":
-            c1 = [x for x in _leaves(list(_members(e1).values()), []) if isinstance(x, bytes) and len(x) >= 32]
-            c2 = [x for x in _leaves(list(_members(e2).values()), []) if isinstance(x, bytes) and len(x) >= 32]
+            unit = None         # schemes that store several ciphertexts back to back in one entry
+            if scheme == "DP17.Pi":
+                unit = s.config.param_identifier_cipher_len
+            elif scheme in ("CT14.Pi", "ANSS16.Scheme3"):
+                unit = len(s.config.ske.Encrypt(b"\x00" * len(s.config.ske.KeyGen()), b"\x00" * size))
+
+            def _split(xs):
+                out = []
+                for x in xs:
+                    if unit and len(x) % unit == 0 and len(x) > unit:
+                        out.extend(x[i:i + unit] for i in range(0, len(x), unit))
+                    else:
+                        out.append(x)
+                return out
+            c1 = _split([x for x in _leaves(list(_members(e1).values()), []) if isinstance(x, bytes) and len(x) >= 32])
+            c2 = _split([x for x in _leaves(list(_members(e2).values()), []) if isinstance(x, bytes) and len(x) >= 32])
             vals1 = [x for x in c1 if x not in set(_table_keys(e1))]
             if len(set(vals1)) != len(vals1):
                 return S.fail("equal-ciphertext-entries")
@@ -287,6 +307,13 @@ def obligations(tier, seed):
                           {"scheme": scheme, "over": {}, "lens": lens, "seed": seed}, budget_s=400))
             obs.append(ob("c04.keyed.%s.%s" % (scheme, tag), "harness.c04", "h_keyed",
                           {"scheme": scheme, "over": {}, "lens": lens, "seed": seed}, budget_s=400))
+    for lens in ([2, 1], [4, 3, 1]):
+        tag = "-".join(map(str, lens))
+        over = {"param_L": 2, "param_actual_storage_level_ratio": 1.0}
+        obs.append(ob("c04.noninterference.DP17.Pi.L2.%s" % tag, "harness.c04", "h_noninterference",
+                      {"scheme": "DP17.Pi", "over": over, "lens": lens, "seed": seed}, budget_s=400))
+        obs.append(ob("c04.keyed.DP17.Pi.L2.%s" % tag, "harness.c04", "h_keyed",
+                      {"scheme": "DP17.Pi", "over": over, "lens": lens, "seed": seed}, budget_s=400))
     obs.append(twin("c04.ni.twin", "harness.c04", "h_noninterference",
                     {"scheme": "CJJ14.PiBas", "over": {}, "lens": [2, 1], "twin": True}))
     obs.append(twin("c04.keyed.twin", "harness.c04", "h_keyed",
